@@ -261,7 +261,8 @@ ares_status_t ares_init_by_options(ares_channel_t            *channel,
                                    const struct ares_options *options,
                                    int                        optmask)
 {
-  size_t i;
+  size_t              i;
+  struct ares_options defopts;
 
   if (channel == NULL) {
     return ARES_ENODATA; /* LCOV_EXCL_LINE: DefensiveCoding */
@@ -271,7 +272,10 @@ ares_status_t ares_init_by_options(ares_channel_t            *channel,
     if (optmask != 0) {
       return ARES_ENODATA; /* LCOV_EXCL_LINE: DefensiveCoding */
     }
-    return ARES_SUCCESS;
+    /* ares_init(): behave exactly like an options structure with no option
+     * set so the same defaults (e.g. the query cache) are applied below. */
+    memset(&defopts, 0, sizeof(defopts));
+    options = &defopts;
   }
 
   /* Easy stuff. */
